@@ -451,7 +451,8 @@ YAML_CORE_NONSTR = [
     ("int-decimal", "[-+]?[0-9]+"),
     ("int-octal", "0o[0-7]+"),
     ("int-hex", "0x[0-9a-fA-F]+"),
-    ("float", "[-+]?(\\.[0-9]+|[0-9]+(\\.[0-9]*)?)([eE][-+]?[0-9]+)?"),
+    ("float-with-dot", "[-+]?(\\.[0-9]+|[0-9]+\\.[0-9]*)([eE][-+]?[0-9]+)?"),
+    ("float-exponent-without-dot", "[-+]?[0-9]+[eE][-+]?[0-9]+"),
     ("float-inf", "[-+]?\\.(inf|Inf|INF)"),
     ("float-nan", "\\.(nan|NaN|NAN)"),
 ]
@@ -474,7 +475,7 @@ def rule_r7(F, rep):
         inter = acc & regex(al, rx)
         w = inter.shortest()
         ok = w is None
-        rep.ob(R, "yaml-plain|%s" % name, ok, {"pattern": rx, "atoms": ex.atoms} if name == "float" else None)
+        rep.ob(R, "yaml-plain|%s" % name, ok, {"pattern": rx, "atoms": ex.atoms} if name == "float-with-dot" else None)
         if not ok:
             rep.violation(R, "%s|plain-resolves-as|%s" % (fn.q, name),
                           "is_safe_yaml_plain accepts %r, which a YAML 1.2 loader resolves as %s, not as a string: an object "
